@@ -66,6 +66,8 @@ func ScenarioByName(name string) *Scenario {
 		sc = StaticSilent(arg(1), arg(2), arg(3), arg(4))
 	case "late":
 		sc = LateWitness(arg(1))
+	case "commitfault":
+		sc = CommitFault(arg(1), arg(2), arg(3), arg(4))
 	case "unknownitx":
 		sc = UnknownItx(arg(1), arg(2), arg(3))
 	case "irregular":
@@ -240,6 +242,12 @@ func RunItem(it Item) *Result {
 			res.MaxCycles = sr.Cycles
 		}
 		res.Counters["suffixes_run"]++
+		if !sr.Quiescent && equivocated(x.C) {
+			// "as long as no validator equivocated": a validator that was restarted without (all of) its own
+			// events may unknowingly reuse a height; what follows is outside the liveness property
+			res.Counters["suffixes_after_an_equivocation"]++
+			return
+		}
 		if !sr.Quiescent {
 			res.NotQuiescent++
 			x.Viol = append(x.Viol, ev.Violation{Property: "C06", Key: "not-quiescent",
@@ -400,4 +408,17 @@ func WindowAlphabet(n, leave int) []Action {
 		a = append(a, Action{K: "L", A: leave})
 	}
 	return a
+}
+
+// equivocated: the cluster's event log holds two events of one creator at one height.
+func equivocated(c *sim.Cluster) bool {
+	seen := map[string]string{}
+	for hx, r := range c.Events {
+		k := fmt.Sprintf("%d/%d", r.CreatorIdx, r.Index)
+		if o, dup := seen[k]; dup && o != hx {
+			return true
+		}
+		seen[k] = hx
+	}
+	return false
 }
